@@ -331,10 +331,15 @@ def parse_ev(line):
 
 
 # ----------------------------------------------------------------------------- the independent oracle
+st_branch = [None]   # per-call side channel: branch histogram of the last oracle_case call (single-stage cases)
+
+
 def oracle_case(params, evlines):
     """list model + hold rule on one real trace.  returns (violation or None, stats, observations)"""
     st = collections.Counter()
     obs = collections.Counter()
+    branch = collections.Counter()
+    st_branch[0] = branch
     stages = parse_chain(params.get("chain", "-"))
     hold = params.get("hold", "1") == "1"; polite = params.get("polite", "1") == "1"
     info = chain_info(stages, hold, polite)
@@ -363,6 +368,12 @@ def oracle_case(params, evlines):
             tin.append((e["d"], e["e"], e["m"])); st["in_transfers"] += 1
         if vo and e["r"]:
             tout.append(ob); tout_cycle.append(idx); st["out_transfers"] += 1
+        if len(stages) == 1:
+            # single stage: the boundary events identify the branch of the stage machine taken in this cycle
+            tin_now = e["v"] and rin; tout_now = vo and e["r"]
+            cls = ("accept+deliver" if tin_now and tout_now else "accept_only(fill)" if tin_now else "deliver_only(drain)" if tout_now
+                   else "hold_output(valid&!ready)" if vo else "refuse_input(valid&!ready_in)" if e["v"] else "idle")
+            branch[f"{stages[0][0]}{stages[0][1] if stages[0][0] in ('ex', 're', 'dl') else ''}:{cls}"] += 1
         if e["v"] and rin and vo and e["r"]:
             st["in_and_out_same_cycle"] += 1
         if vo and not e["r"]:
@@ -433,7 +444,8 @@ def run_cases(exe, drv, cases, tag):
 
 def new_agg():
     return dict(cases=0, events=0, hash=set(), classes=collections.Counter(), stage_hist=collections.Counter(), depth_hist=collections.Counter(),
-                pattern_hist=collections.Counter(), flag_hist=collections.Counter(), obs=collections.Counter(), nomodel=0, nontrivial_hashes=set())
+                pattern_hist=collections.Counter(), flag_hist=collections.Counter(), obs=collections.Counter(), nomodel=0, nontrivial_hashes=set(),
+                branches=collections.Counter())
 
 
 def compare(res, by_id, agg, mismatches, oracle_viol, xlines, samples):
@@ -470,6 +482,8 @@ def compare(res, by_id, agg, mismatches, oracle_viol, xlines, samples):
             agg["classes"][kk] += vv
         for kk, vv in obs.items():
             agg["obs"][kk] += vv
+        for kk, vv in (st_branch[0] or {}).items():
+            agg["branches"][kk] += vv
         if st.get("nontrivial"):
             agg["nontrivial_hashes"].add(h)
         if v:
@@ -641,6 +655,7 @@ def main():
     cov["pattern_histogram"] = dict(sorted(agg["pattern_hist"].items()))
     cov["flag_histogram"] = dict(sorted(agg["flag_hist"].items()))
     cov["case_classes"] = dict(agg["classes"])
+    cov["model_branches_single_stage_cases"] = dict(sorted(agg["branches"].items()))
     cov["by_design_observations"] = dict(agg["obs"])
     cov["search_mode"] = search_info
     cov["explanation"] = ("Theorems are universal over all schedules (arbitrary lists of per-cycle inputs), all ratios, all chains (sdesc). What is sampled is only the "
